@@ -2523,6 +2523,29 @@ static void build_expr(WorkList *list, ASTNode *expr, Environment *env) {
                 out_type = out_type_buf;
             }
             
+            /* The value of a match expression has the type of its arms, whatever the enclosing
+             * function returns: take it from the first expression-bodied arm when it can be inferred. */
+            for (int ai = 0; ai < expr->as.match_expr.arm_count; ai++) {
+                ASTNode *ab = expr->as.match_expr.arm_bodies[ai];
+                if (!ab || ab->type == AST_BLOCK) continue;
+                Type at = check_expression(ab, env);
+                if (at == TYPE_INT || at == TYPE_FLOAT || at == TYPE_BOOL || at == TYPE_STRING ||
+                    at == TYPE_ARRAY || at == TYPE_U8) {
+                    strncpy(out_type_buf, type_to_c(at), sizeof(out_type_buf) - 1);
+                    out_type_buf[sizeof(out_type_buf) - 1] = '\0';
+                    out_type = out_type_buf;
+                } else if (at == TYPE_STRUCT) {
+                    const char *sn = get_struct_type_name(ab, env);
+                    if (sn && !strchr(sn, '.')) {
+                        const char *temp = get_prefixed_type_name(sn);
+                        strncpy(out_type_buf, temp, sizeof(out_type_buf) - 1);
+                        out_type_buf[sizeof(out_type_buf) - 1] = '\0';
+                        out_type = out_type_buf;
+                    }
+                }
+                break;
+            }
+
             const char *prefixed_union = get_prefixed_type_name(union_c_name);
             
             /* Start compound expression */
